@@ -4,6 +4,7 @@ import (
 	"bytes"
 	"crypto/sha256"
 	"fmt"
+	"os"
 	"runtime"
 	"sort"
 	"strings"
@@ -213,7 +214,17 @@ func runC18(t *sim.T, tier string) *sim.Violation {
 			}
 		}
 		stIn = append(stIn, z)
+		if t.Chance(1, 4) {
+			// a sibling archive whose header row differs only in how its text splits into cells
+			sib := &gen.StaticModel{Feed: m.Feed.Clone(), Cfg: m.Cfg}
+			if d := gen.MergeHeaderCells(t, sib); d != "" {
+				t.Logf("shared archive %d is a sibling of archive %d: %s", len(stIn), i, d)
+				t.Probe("merged-header-sibling")
+				stIn = append(stIn, sib.Feed.Zip(gen.DrawZipOpts(t, len(sib.Feed.Tables))))
+			}
+		}
 	}
+	nST = len(stIn)
 	snapRT := make([][]byte, len(rtIn))
 	for i := range rtIn {
 		snapRT[i] = append([]byte(nil), rtIn[i]...)
@@ -368,7 +379,19 @@ func runC18(t *sim.T, tier string) *sim.Violation {
 	// lazily initialised package-level state (memo tables, caches) is still cold when the tasks race
 	// for it; in the remaining runs they happen first (warm state).
 	want := make([][]c18Result, nTasks)
+	// VERIF_C18_ORDER=reverse (set by the driver for fresh child processes): the solo runs come first and in
+	// the opposite order, in a process that has parsed nothing else; their digest must be the worker's.
+	reverse := os.Getenv("VERIF_C18_ORDER") == "reverse"
 	reference := func() {
+		if reverse {
+			for i := len(progs) - 1; i >= 0; i-- {
+				want[i] = make([]c18Result, len(progs[i]))
+				for k := len(progs[i]) - 1; k >= 0; k-- {
+					want[i][k] = runOp(progs[i][k], false)
+				}
+			}
+			return
+		}
 		for i := range progs {
 			for _, op := range progs[i] {
 				want[i] = append(want[i], runOp(op, false))
@@ -376,6 +399,9 @@ func runC18(t *sim.T, tier string) *sim.Violation {
 		}
 	}
 	refFirst := t.Chance(1, 4)
+	if reverse {
+		refFirst = true
+	}
 	if refFirst {
 		reference()
 	}
@@ -480,6 +506,18 @@ func runC18(t *sim.T, tier string) *sim.Violation {
 			}
 		}
 	}
+	// digest of what every call returned alone (compared by the driver with fresh processes, see cmd/verif)
+	var dg []string
+	for i := range want {
+		for _, w := range want[i] {
+			if w.pv != nil {
+				dg = append(dg, "panic")
+				continue
+			}
+			dg = append(dg, w.dump, w.hash)
+		}
+	}
+	t.Digest = fmt.Sprintf("%016x", sim.HashStrings(dg...))
 	// ---- oracle (c): shared inputs unchanged
 	for i := range rtIn {
 		if !bytes.Equal(rtIn[i], snapRT[i]) {
